@@ -29,10 +29,11 @@ func init() {
 		Harnesses: []*HarnessSpec{
 			{Name: "H_C16_truncate", Tier: "quick", What: "7 kinds x {empty, populated}: EVERY strict prefix (length 0..len-1) of the serialisation is rejected with an error — no panic, no hang (step budget), no success", Covers: []string{"ran"}},
 			{Name: "H_C16_truncate_hybrid", Tier: "quick", What: "hybrid (flat [+text] + metadata) concatenated stream: every strict prefix rejected", Covers: []string{"ran"}},
-			{Name: "H_C16_mismatch", Tier: "quick", What: "7 kinds: stream into a receiver of each other kind (7x6 pairs), altered version byte, receiver differing in exactly one of dim / metric / M / efConstruction / efSearch / nlist / PQ M / nbits, hybrid sub-index presence: error", Covers: []string{"ran"}},
+			{Name: "H_C16_mismatch", Tier: "quick", What: "7 kinds x writer state (fresh-untrained / trained-empty / populated): stream into a receiver of each other kind (7x6 pairs), altered version byte, receiver differing in exactly one of dim / metric (all 6 ordered pairs) / M / efConstruction / efSearch / nlist / PQ M / nbits, hybrid sub-index presence: error", Covers: []string{"ran"}},
+			{Name: "H_C16_segment", Tier: "quick", What: "store segment clause: one flushed segment (2 documents; templates flat+text+metadata and flat only), one of its 2..4 gzip component files cut to EVERY strict prefix (0 = empty) or deleted; reopened with fresh templates: Open succeeds and the segment contributes nothing to vector / text / metadata searches (native replay sweeps every prefix of the real gzip files)", Covers: []string{"missing", "truncated"}},
 		},
-		Bounds:      []string{"streams of 30..400 bytes: all prefix lengths, not a sample", "one state per kind (3 vectors / 2 documents) + the empty state"},
-		Outside:     []string{"arbitrary corruption (bit flips, hostile length fields) — not in the property", "the persistent store's segment clause (gzip component files): see C10 / the storage tier", "prefixes of real roaring / BSI byte formats (model formats inside the engine)"},
+		Bounds:      []string{"streams of 30..400 bytes: all prefix lengths, not a sample", "three states per trainable kind (fresh, trained-empty, 3 vectors), two for the others (empty, 2-3 documents)", "segments: one segment of two documents, every prefix of each component file"},
+		Outside:     []string{"arbitrary corruption (bit flips, hostile length fields) — not in the property", "segment files inside the engine use the gzip framing model (header 2 bytes, payload, trailer 5 bytes): real deflate block boundaries are only reached by the native sweep of a replay", "prefixes of real roaring / BSI byte formats (model formats inside the engine)"},
 		Assumptions: streamAssumptions,
 		QuickSecs:   900,
 		LevelNote:   idxNote,
